@@ -21,3 +21,16 @@ pub fn chunks_try_map<T, F: FnMut(&[u8]) -> Result<T>>(s: &[u8], n: usize, f: &m
              forall|c: &[u8]| c@.len() <= n ==> #[trigger] f.requires((c,)),
     ensures r matches Ok(v) ==> v@.len() == (s@.len() + n - 1) / n as int
 { unimplemented!() }
+
+// ---- the serialising side of a change record (U8) ----
+// N7: `x.to_bytes()` for the 8-byte fields (usize, Stamp): Kani rt_usize / rt_version_stamp prove these are the little-endian bytes
+pub trait ToBytes8 { spec fn as_u64(&self) -> u64; fn to_bytes8(&self) -> (r: [u8; 8]) ensures r@ == le64(self.as_u64()); }
+impl ToBytes8 for usize { open spec fn as_u64(&self) -> u64 { *self as u64 } #[verifier::external_body] fn to_bytes8(&self) -> (r: [u8; 8]) { (*self as u64).to_le_bytes() } }
+impl ToBytes8 for Stamp { open spec fn as_u64(&self) -> u64 { self.0 } #[verifier::external_body] fn to_bytes8(&self) -> (r: [u8; 8]) { self.0.to_le_bytes() } }
+// N7: `bytes.extend(arr)` with an 8-byte array
+#[verifier::external_body] pub fn vec_extend_arr8(v: &mut Vec<u8>, a: [u8; 8]) ensures final(v)@ == old(v)@ + a@ { v.extend(a) }
+// N15: `write_values(vals, &mut bytes)` — the strategy's `for v in vals { S::write_to_vec(v, buf) }`: appends size_of_t bytes per value
+#[verifier::external_body]
+pub fn call_write_values<T, F>(f: &F, vals: &[T], bytes: &mut Vec<u8>, Ghost(size_of_t): Ghost<usize>)
+    ensures final(bytes)@.len() == old(bytes)@.len() + vals@.len() * size_of_t, final(bytes)@.take(old(bytes)@.len() as int) == old(bytes)@
+{ unimplemented!() }
